@@ -370,7 +370,9 @@ def intrinsics():
     I[OPT + "map_or"] = lambda ip, n, a: call_f(ip, a[2], [d(a[0]).fields[0]]) if d(a[0]).variant == "Some" else a[1]
     I[OPT + "ok_or"] = lambda ip, n, a: ok(d(a[0]).fields[0]) if d(a[0]).variant == "Some" else err(a[1])
     I[OPT + "ok_or_else"] = lambda ip, n, a: ok(d(a[0]).fields[0]) if d(a[0]).variant == "Some" else err(call_f(ip, a[1], []))
-    I[OPT + "or_else"] = lambda ip, n, a: d(a[0]) if d(a[0]).variant == "Some" else call_f(ip, a[1], [])
+    I[OPT + "or"] = lambda ip, n, a: d(a[0]) if d(a[0]).variant == "Some" else d(a[1])
+    I[OPT + "and"] = lambda ip, n, a: d(a[1]) if d(a[0]).variant == "Some" else none()
+    I[OPT + "or_else"] =lambda ip, n, a: d(a[0]) if d(a[0]).variant == "Some" else call_f(ip, a[1], [])
     I[OPT + "take"] = lambda ip, n, a: _take(a[0])
 
     def unwrap(ip, n, a):
